@@ -11,7 +11,7 @@ FREE_EMBS = ["pre", "init", "explicit"]
 
 def gen_dag(rng, n, max_deps=3, embs=None, p_dep=0.6):
     embs = embs or (PARAM_EMBS + FREE_EMBS)
-    kinds = [rng.choice(["leaf", "node", "node", "wtask", "wnode"]) for _ in range(n)]
+    kinds = [rng.choice(["leaf", "node", "node", "wtask", "wnode", "ptask"]) for _ in range(n)]
     tasks = []
     for x in range(n):
         t = {"kind": kinds[x], "deps": []}
@@ -76,7 +76,7 @@ def base(rng, n_lo=1, n_hi=6, **kw):
     n = rng.randint(n_lo, n_hi)
     return {"tasks": gen_dag(rng, n, **kw), "tokens": [], "procs": [], "jobfaults": [],
             "cfg": {"set_order": True, "trace": False, "preempt": 0, "pid_reuse": False,
-                    "body_len": rng.choice([1, 1, 1, 2, 4, 10])}}
+                    "body_len": rng.choice([1, 1, 1, 2, 4, 10]), "start_len": rng.choice([1, 1, 1, 1, 3, 12])}}
 
 
 def maybe_pid_reuse(rng, scn, p=0.15):
@@ -331,6 +331,7 @@ def gen_C11(rng, tier):
     n = len(scn["tasks"])
     # long bodies: a restart should usually find jobs of the killed run still running
     scn["cfg"]["body_len"] = rng.choice([1, 4, 12, 30, 60])
+    scn["cfg"]["start_len"] = rng.choice([1, 1, 5, 20, 60])     # the orphan of the killed run may still be starting
     if rng.random() < 0.35:
         add_tokens(rng, scn, kinds=("file",), max_tokens=1)
     if rng.random() < 0.15:
